@@ -5,17 +5,26 @@ LEVEL = 'proof'
 CLAIMED = True
 
 RULE = ('correspondence: random histories of 1..4 operations (draw_iter with unordered/duplicate points, fill_contiguous with '
-        'full / short / over-long / empty / endless colour streams, fill_solid, clear) issued through random adapter stacks of '
-        'depth 0..4 (clipped, cropped, translated, color_converted; rectangles chosen relative to the current level box: '
-        'overlapping, containing, inside, disjoint, zero-sized, flat) over parents with non-origin and empty bounding boxes, a '
-        'share of them shifted to +-2^20; every history runs on a draw_iter-only parent (tstack 0: real trait defaults), on a '
-        'native parent (tstack 1) and as call log (tcalls: the calls that reach the parent, i.e. the re-cut colour streams of '
-        'Clipped::fill_contiguous); tcrop drives the Cropped colour iterator alone through a clipped target (all crop positions '
-        'of a small grid + random). Compared: reported bounding_box() of the outermost adapter + root pixel map / call log. '
-        'A case is non-trivial when the model result has a non-empty map / log. search (p_stack): the same histories on the '
-        'implementation against an independent set-theoretic reference (half-open boxes in i64, one shift, a list of clip sets, '
-        'iterated colour map), checking the bounding box reported at EVERY level and the root pixel map; thorough adds the '
-        'exhaustive one-adapter grids.')
+        'full / short / over-long / empty / constant-endless colour streams incl. generated long streams `G n a b`, fill_solid, '
+        'clear) issued through random adapter stacks of depth 0..4 (clipped, cropped, translated, color_converted; rectangles '
+        'chosen relative to the exact current level box: overlapping, containing, inside, disjoint, zero-sized, flat; when the '
+        'level box is empty half of the pixels sit exactly on its top left) over parents with non-origin and empty bounding '
+        'boxes; strata: 12% shifted to +-2^20, parents touching the edge of i32 (far edge = i32::MAX / top left = i32::MIN, '
+        'every intermediate coordinate representable), display-scale fill areas (64..400 wide, clip/crop windows deep inside, '
+        'more than 2^16 skipped colours, distinct colours along the stream), the one-adapter grids (C, R, T). Every history '
+        'runs on a draw_iter-only parent (tstack 0: real trait defaults), on a native parent (tstack 1) and as call log '
+        '(tcalls: the calls that reach the parent, i.e. the re-cut colour streams of Clipped::fill_contiguous); tcrop drives the '
+        'Cropped colour iterator alone through a clipped target (all crop positions of a small grid, random, display-scale). '
+        'Compared: reported bounding_box() of the outermost adapter + the root pixel map AFTER EVERY OPERATION / the call log. '
+        'Stacks are built from the concrete nested library types (DrawTargetExt constructors called on the already adapted '
+        'target, operations through the public DrawTarget methods); beyond depth 3 behind a forwarding wrapper. corpus/C03.txt '
+        'pins the empty-clip / overhanging-crop / i32-edge / display-scale classes. A case is non-trivial when some map / the '
+        'log is non-empty. search (p_stack): the same strata on the implementation against an independent set-theoretic '
+        'reference in i64 (exact rectangles incl. the documented top left of empty intersections, one shift, a list of clip '
+        'sets, iterated colour map), checking the exact box reported at EVERY level and the root pixel map after EVERY '
+        'operation, and that the concrete nested types and the forwarded stack agree; p_chain: literal constructor chains on '
+        'temporaries (t.translated(d).cropped(&r)... in 8 orders incl. color_converted), rebuilt for every operation; thorough '
+        'adds the exhaustive one-adapter grids.')
 EXHAUSTIVE = {'quick': False, 'thorough': False}
 ASSUMPTIONS = ['extents of every rectangle (parent box, adapter areas, fill areas) are at most i32::MAX (size_fits); for a '
                'draw_iter-only parent additionally the area that reaches it and its box have representable far edges (rect_fits: '
@@ -31,26 +40,48 @@ PARTIAL = []
 
 def trivial(line, res):
     if line.startswith('tstack'):
-        return res.endswith('MAP ') or res.endswith('MAP')
+        m = res.split('MAP', 1)
+        return len(m) < 2 or m[1].replace('|', '').strip() == ''
     return res.strip() in ('', 'none', '0')
 
 
-# ---- generators -----------------------------------------------------------------------------------
-def near(rng, box, spread=3, good=0.0):
-    """a rectangle related to `box` = (x0,y0,x1,y1) half open or None: overlapping / inside / containing / disjoint / degenerate;
-    with probability `good` the result is guaranteed to overlap the box"""
-    if box is None:
-        x0, y0, x1, y1 = rng.randrange(-3, 4), rng.randrange(-3, 4), rng.randrange(-3, 4), rng.randrange(-3, 4)
-        x1, y1 = max(x0, x1) + 1, max(y0, y1) + 1
-    else:
-        x0, y0, x1, y1 = box
+IMAX = 2 ** 31 - 1
+IMIN = -2 ** 31
+
+
+# ---- exact rectangles (x, y, w, h) with the documented intersection (zero-sized operands keep their top left when
+#      it lies inside the other operand) - only used to steer the generators towards interesting inputs ----------
+def r_empty(r):
+    return r[2] == 0 or r[3] == 0
+
+
+def r_has(r, x, y):
+    return not r_empty(r) and r[0] <= x < r[0] + r[2] and r[1] <= y < r[1] + r[3]
+
+
+def r_isect(a, b):
+    if not r_empty(a) and not r_empty(b):
+        x0, y0 = max(a[0], b[0]), max(a[1], b[1])
+        x1, y1 = min(a[0] + a[2], b[0] + b[2]), min(a[1] + a[3], b[1] + b[3])
+        return (x0, y0, x1 - x0, y1 - y0) if x0 < x1 and y0 < y1 else (0, 0, 0, 0)
+    if r_empty(a) and not r_empty(b):
+        return a if r_has(b, a[0], a[1]) else (0, 0, 0, 0)
+    if not r_empty(a) and r_empty(b):
+        return b if r_has(a, b[0], b[1]) else (0, 0, 0, 0)
+    return (0, 0, 0, 0)
+
+
+def near(rng, ref, spread=3, good=0.0):
+    """a rectangle related to the non-empty rectangle `ref` = (x, y, w, h): overlapping / inside / containing / disjoint /
+    degenerate; with probability `good` the result is guaranteed to overlap it"""
+    x0, y0, x1, y1 = ref[0], ref[1], ref[0] + max(ref[2], 1), ref[1] + max(ref[3], 1)
     if rng.random() < good:
-        # pick a point of the box and grow a rectangle around it
         cx, cy = rng.randrange(x0, x1), rng.randrange(y0, y1)
         ax, ay = cx - rng.randrange(0, spread + 3), cy - rng.randrange(0, spread + 3)
         return (ax, ay, cx - ax + 1 + rng.randrange(0, spread + 3), cy - ay + 1 + rng.randrange(0, spread + 3))
     k = rng.random()
-    if k < 0.08:      # zero sized / flat, anywhere near
+    if k < 0.08:      # zero sized / flat, anywhere near (the top left of an empty rectangle matters: it survives
+        #               intersection when it lies inside the other operand)
         w, h = rng.choice([(0, 0), (0, rng.randrange(1, 6)), (rng.randrange(1, 6), 0), (0, 40), (40, 0)])
         return (rng.randrange(x0 - 2, x1 + 2), rng.randrange(y0 - 2, y1 + 2), w, h)
     if k < 0.16:      # disjoint
@@ -61,30 +92,13 @@ def near(rng, box, spread=3, good=0.0):
     if k < 0.34:      # containing
         a, b = rng.randrange(0, spread), rng.randrange(0, spread)
         return (x0 - a, y0 - b, x1 - x0 + a + rng.randrange(0, spread), y1 - y0 + b + rng.randrange(0, spread))
-    # general: corners within spread of the box
     ax, ay = rng.randrange(x0 - spread, x1 + 1), rng.randrange(y0 - spread, y1 + 1)
     bx, by = rng.randrange(ax, x1 + spread + 1), rng.randrange(ay, y1 + spread + 1)
     return (ax, ay, bx - ax, by - ay)
 
 
-def bx_of(r):
-    x, y, w, h = r
-    return None if w == 0 or h == 0 else (x, y, x + w, y + h)
-
-
-def bx_and(a, b):
-    if a is None or b is None:
-        return None
-    r = (max(a[0], b[0]), max(a[1], b[1]), min(a[2], b[2]), min(a[3], b[3]))
-    return None if r[0] >= r[2] or r[1] >= r[3] else r
-
-
-def bx_shift(a, dx, dy):
-    return None if a is None else (a[0] + dx, a[1] + dy, a[2] + dx, a[3] + dy)
-
-
 def stream(rng, n):
-    """colour stream for an area of n points: full, short, over-long, empty, or endless"""
+    """colour stream for an area of n points: full, short, over-long, empty, endless, or generated (G n a b)"""
     k = rng.random()
     if k < 0.12:
         return J('I', rng.randrange(1, 250))
@@ -96,10 +110,53 @@ def stream(rng, n):
         m = 0
     else:
         m = n + rng.randrange(1, 9)
+    if m > 40 or (m and rng.random() < 0.15):
+        return J('G', m, rng.choice([1, 3, 7, 11, 250]), rng.randrange(0, 251))
     return J('L', m, *[rng.randrange(1, 250) for _ in range(m)]) if m else 'L 0'
 
 
-def history(rng, maxdepth=4, maxops=4, big=None):
+def gen_ops(rng, level, maxops, lim=None, good=0.5):
+    """operations aimed at the level box `level` (exact rectangle in the coordinates of the outermost adapter); when the
+    box is empty, part of the pixels sit exactly on its top left (the only point an off-by-one emptiness test can leak).
+    lim = (lo_x, hi_x, lo_y, hi_y): keep every coordinate and far edge inside these bounds (edge-of-i32 cases)"""
+    ref = level if not r_empty(level) else (level[0], level[1], 2, 2)
+
+    def fit(r):
+        if lim is None:
+            return r
+        x = min(max(r[0], lim[0]), lim[1])
+        y = min(max(r[1], lim[2]), lim[3])
+        return (x, y, max(0, min(r[2], lim[1] - x)), max(0, min(r[3], lim[3] - y)))
+    ops = []
+    for _ in range(rng.randrange(1, maxops + 1)):
+        k = rng.random()
+        if k < 0.25:
+            n = rng.randrange(0, 9)
+            pts = []
+            for _ in range(n):
+                if pts and rng.random() < 0.25:
+                    p = rng.choice(pts)[:2]
+                elif r_empty(level) and rng.random() < 0.5:
+                    p = (level[0], level[1])
+                else:
+                    p = (rng.randrange(ref[0] - 3, ref[0] + ref[2] + 3), rng.randrange(ref[1] - 3, ref[1] + ref[3] + 3))
+                if lim is not None:
+                    p = (min(max(p[0], lim[0]), lim[1]), min(max(p[1], lim[2]), lim[3]))
+                pts.append((p[0], p[1], rng.randrange(1, 250)))
+            ops.append(J('D', n, *[v for p in pts for v in p]))
+        elif k < 0.65:
+            r = near(rng, ref, 4, good=good)
+            r = fit((r[0], r[1], min(r[2], 14), min(r[3], 14)))
+            ops.append(J('F', *r, stream(rng, r[2] * r[3])))
+        elif k < 0.9:
+            r = near(rng, ref, 4, good=good)
+            ops.append(J('S', *fit((r[0], r[1], min(r[2], 40), min(r[3], 40))), rng.randrange(1, 250)))
+        else:
+            ops.append(J('K', rng.randrange(1, 250)))
+    return ops
+
+
+def history(rng, maxdepth=4, maxops=4, big=None, good=0.7):
     """returns the case line without suite name and kind: '<bb> <nad> <ads> <nops> <ops>'"""
     base = (0, 0)
     if big is None:
@@ -112,60 +169,143 @@ def history(rng, maxdepth=4, maxops=4, big=None):
     else:
         bb = (rng.randrange(-6, 9), rng.randrange(-6, 9), rng.randrange(1, 11), rng.randrange(1, 11))
     bb = (bb[0] + base[0], bb[1] + base[1], bb[2], bb[3])
-    level = bx_of(bb)
-    empty_origin = (bb[0], bb[1])
+    level = bb                       # exact box of the current level, in its own coordinates
     depth = rng.choice([0, 1, 1, 2, 2, 3, 3, 4][:2 * maxdepth]) if maxdepth else 0
     ads = []
     for _ in range(depth):
         k = rng.random()
-        ref = level if level is not None else (empty_origin[0], empty_origin[1], empty_origin[0] + 1, empty_origin[1] + 1)
+        ref = level if not r_empty(level) else (level[0], level[1], 1, 1)
         if k < 0.35:
-            r = near(rng, ref, good=0.7)
+            r = near(rng, ref, good=good)
             ads.append(J('C', *r))
-            level = bx_and(bx_of(r), level)
+            level = r_isect(r, level)
         elif k < 0.62:
-            r = near(rng, ref, good=0.7)
+            r = near(rng, ref, good=good)
             ads.append(J('R', *r))
-            s = bx_and(bx_of(r), level)
-            if s is None:
-                level = None
-                empty_origin = (0, 0)
-            else:
-                level = bx_shift(s, -s[0], -s[1])
+            s = r_isect(r, level)
+            level = (0, 0, s[2], s[3])
         elif k < 0.88:
             if big and rng.random() < 0.5:
                 d = (rng.choice([-1, 1]) * rng.randrange(2 ** 20 - 9, 2 ** 20 + 1), rng.choice([-1, 1]) * rng.randrange(2 ** 20 - 9, 2 ** 20 + 1))
             else:
                 d = (rng.randrange(-5, 6), rng.randrange(-5, 6))
             ads.append(J('T', *d))
-            level = bx_shift(level, -d[0], -d[1])
-            empty_origin = (empty_origin[0] - d[0], empty_origin[1] - d[1])
+            level = (level[0] - d[0], level[1] - d[1], level[2], level[3])
         else:
             ads.append('V')
-    ref = level if level is not None else (empty_origin[0], empty_origin[1], empty_origin[0] + 2, empty_origin[1] + 2)
-    ops = []
-    for _ in range(rng.randrange(1, maxops + 1)):
-        k = rng.random()
-        if k < 0.25:
-            n = rng.randrange(0, 9)
-            pts = []
-            for _ in range(n):
-                if pts and rng.random() < 0.25:
-                    p = rng.choice(pts)[:2]
-                else:
-                    p = (rng.randrange(ref[0] - 3, ref[2] + 3), rng.randrange(ref[1] - 3, ref[3] + 3))
-                pts.append((p[0], p[1], rng.randrange(1, 250)))
-            ops.append(J('D', n, *[v for p in pts for v in p]))
-        elif k < 0.65:
-            r = near(rng, ref, 4, good=0.5)
-            r = (r[0], r[1], min(r[2], 14), min(r[3], 14))
-            ops.append(J('F', *r, stream(rng, r[2] * r[3])))
-        elif k < 0.9:
-            r = near(rng, ref, 4, good=0.5)
-            ops.append(J('S', r[0], r[1], min(r[2], 40), min(r[3], 40), rng.randrange(1, 250)))
-        else:
-            ops.append(J('K', rng.randrange(1, 250)))
+    ops = gen_ops(rng, level, maxops)
     return J(*bb, len(ads), *ads, len(ops), *ops)
+
+
+def edge_history(rng, maxops=3):
+    """parents whose box touches the edge of i32 (far edge = i32::MAX, top left = i32::MIN, per axis independently);
+    clipped / cropped / colour-converted / inward-translated stacks; every coordinate the library computes stays
+    representable (the theorems' range rect_fits reaches exactly this edge)"""
+    def axis():
+        k = rng.random()
+        w = rng.randrange(1, 11)
+        if k < 0.45:
+            return ('hi', IMAX - w - rng.choice([0, 0, 1, 3]), w)
+        if k < 0.9:
+            return ('lo', IMIN + rng.choice([0, 0, 1, 2]), w)
+        return ('mid', rng.randrange(-6, 9), w)
+    ax, ay = axis(), axis()
+    bb = (ax[1], ay[1], ax[2], ay[2])
+    # bounds for coordinates in ROOT space; `F` areas never start at i32::MIN (Clipped::fill_contiguous negates the
+    # area's top left: -i32::MIN is outside i32, see C08)
+    def lims(a):
+        if a[0] == 'hi':
+            return (IMAX - 40, IMAX)
+        if a[0] == 'lo':
+            return (IMIN + 1, IMIN + 40)
+        return (-40, 40)
+    lx, ly = lims(ax), lims(ay)
+
+    offs = [(0, 0)]      # root image of the origin of every level built so far
+
+    def level_lim(off):
+        # bounds in the coordinates of a level whose origin maps to root `off`: the root image must lie in lx / ly and
+        # the image in the coordinates of EVERY level in between must be i32 (the adapters translate step by step);
+        # an F area never starts at i32::MIN, see above
+        lo_x = max([lx[0] - off[0]] + [IMIN + 1 - (off[0] - o[0]) for o in offs + [off]])
+        hi_x = min([lx[1] - off[0]] + [IMAX - (off[0] - o[0]) for o in offs + [off]])
+        lo_y = max([ly[0] - off[1]] + [IMIN + 1 - (off[1] - o[1]) for o in offs + [off]])
+        hi_y = min([ly[1] - off[1]] + [IMAX - (off[1] - o[1]) for o in offs + [off]])
+        return (lo_x, hi_x, lo_y, hi_y)
+    level, off = bb, (0, 0)
+    ads = []
+    for _ in range(rng.choice([0, 1, 1, 2, 2, 3])):
+        if r_empty(level):
+            break
+        k = rng.random()
+        # limits in the coordinates of the current level
+        lim = level_lim(off)
+
+        def fit(r):
+            x = min(max(r[0], lim[0]), lim[1])
+            y = min(max(r[1], lim[2]), lim[3])
+            return (x, y, max(0, min(r[2], lim[1] - x)), max(0, min(r[3], lim[3] - y)))
+        if k < 0.4:
+            r = fit(near(rng, level, good=0.7))
+            ads.append(J('C', *r))
+            level = r_isect(r, level)
+        elif k < 0.7:
+            r = fit(near(rng, level, good=0.8))
+            s = r_isect(r, level)
+            no = (off[0] + s[0], off[1] + s[1])
+            if r_empty(s) or not all(IMIN <= no[0] - o[0] <= IMAX and IMIN <= no[1] - o[1] <= IMAX for o in offs):
+                continue
+            ads.append(J('R', *r))
+            off = (off[0] + s[0], off[1] + s[1])
+            offs.append(off)
+            level = (0, 0, s[2], s[3])
+        elif k < 0.85:
+            # the translated box AND the image of the new origin (where the zero rectangle of a disjoint intersection
+            # lands) must stay representable
+            d = (rng.randrange(-3, 4), rng.randrange(-3, 4))
+            nb = (level[0] - d[0], level[1] - d[1])
+            no = (off[0] + d[0], off[1] + d[1])
+            if not (IMIN <= nb[0] and nb[0] + level[2] <= IMAX and IMIN <= nb[1] and nb[1] + level[3] <= IMAX
+                    and all(IMIN <= no[0] - o[0] <= IMAX and IMIN <= no[1] - o[1] <= IMAX for o in offs)):
+                continue
+            ads.append(J('T', *d))
+            off = (off[0] + d[0], off[1] + d[1])
+            offs.append(off)
+            level = (level[0] - d[0], level[1] - d[1], level[2], level[3])
+        else:
+            ads.append('V')
+    ops = gen_ops(rng, level, maxops, lim=level_lim(off), good=0.7)
+    return J(*bb, len(ads), *ads, len(ops), *ops)
+
+
+def big_history(rng):
+    """display-scale fill areas (the colour stream is a generated token, so the line stays short): a clipped / cropped
+    window somewhere inside a 64..400 wide fill_contiguous; the number of skipped colours exceeds 2^16 in most cases"""
+    W, H = rng.choice([64, 257, 300, 320, 400]), rng.choice([64, 240, 256, 300, 330])
+    bx, by = rng.choice([(0, 0), (rng.randrange(-300, 300), rng.randrange(-300, 300))])
+    bb = (bx, by, W, H) if rng.random() < 0.7 else (bx + rng.randrange(0, W // 2), by + rng.randrange(0, H // 2), W // 2, H // 3)
+    cw, ch = rng.choice([1, 2, 5, 17, 50]), rng.choice([1, 3, 8, 20])
+    cx, cy = bx + rng.randrange(-2, W - cw + 3), by + rng.choice([rng.randrange(-2, H - ch + 3), H - ch - rng.randrange(0, 30)])
+    n = W * H
+    m = rng.choice([n, n, n, n - rng.randrange(0, W * 30), n + 5, (cy - by + 1) * W])
+    ga, gb = rng.choice([1, 3, 7, 11, 250]), rng.randrange(0, 251)
+    area = (bx, by, W, H)
+    k = rng.random()
+    if k < 0.5:
+        ads = [J('C', cx, cy, cw, ch)]
+    elif k < 0.7:
+        d = (rng.randrange(-9, 10), rng.randrange(-9, 10))
+        ads = [J('C', cx, cy, cw, ch), J('T', *d)]
+        area = (bx - d[0], by - d[1], W, H)
+    elif k < 0.85:
+        # crop a band, then clip a window inside the cropped coordinates
+        band = (bx + 3, by + H // 2, W - 5, H // 2 - 2)
+        s = r_isect(band, bb)
+        ads = [J('R', *band), J('C', max(0, cx - s[0]), max(0, cy - s[1] - 1) % max(1, s[3]), cw, ch)]
+        area = (bx - s[0], by - s[1], W, H)
+    else:
+        ads = ['V', J('C', cx, cy, cw, ch), J('C', cx - 1, cy + 1, cw + 5, ch)]
+    return J(*bb, len(ads), *ads, 1, 'F', *area, 'G', max(0, m), ga, gb)
 
 
 def grid_rects(G, lo=-1):
@@ -179,21 +319,52 @@ def grid_rects(G, lo=-1):
 
 
 def grid_cases(rng, n=None):
-    """one adapter (C / R / T) over every parent box, adapter rectangle and fill area of a 3x3 grid"""
+    """one adapter (C / R / T) over every parent box, adapter rectangle (offset -1..1 for T) and fill area of a 3x3 grid"""
     gr = grid_rects(3)
     out = []
+    if n is not None:
+        # a random sample of the grid without enumerating it
+        for _ in range(n):
+            bb, area, a = rng.choice(gr), rng.choice(gr), rng.choice(gr)
+            m = area[2] * area[3]
+            full = J('L', m, *range(1, m + 1)) if m else 'L 0'
+            short = J('L', max(0, m - 2), *range(1, max(0, m - 2) + 1)) if m > 2 else 'L 0'
+            k = rng.randrange(5)
+            if k < 4:
+                ad = 'C' if k < 2 else 'R'
+                out.append(J(*bb, 1, ad, *a, 2, 'F', *area, full, 'S', *area, 77) if k % 2 == 0 else J(*bb, 1, ad, *a, 2, 'K', 9, 'F', *area, short))
+            else:
+                out.append(J(*bb, 1, 'T', rng.randrange(-1, 2), rng.randrange(-1, 2), 3, 'F', *area, full, 'K', 9, 'S', *area, 77))
+        return out
     for bb in gr:
-        for a in gr:
-            for area in gr:
-                m = area[2] * area[3]
+        for area in gr:
+            m = area[2] * area[3]
+            full = J('L', m, *range(1, m + 1)) if m else 'L 0'
+            short = J('L', max(0, m - 2), *range(1, max(0, m - 2) + 1)) if m > 2 else 'L 0'
+            for a in gr:
                 for ad in ('C', 'R'):
-                    full = J('L', m, *range(1, m + 1)) if m else 'L 0'
-                    short = J('L', max(0, m - 2), *range(1, max(0, m - 2) + 1)) if m > 2 else 'L 0'
                     out.append(J(*bb, 1, ad, *a, 2, 'F', *area, full, 'S', *area, 77))
                     out.append(J(*bb, 1, ad, *a, 2, 'K', 9, 'F', *area, short))
-    if n is not None and n < len(out):
-        out = rng.sample(out, n)
+            for dx in (-1, 0, 1):
+                for dy in (-1, 0, 1):
+                    out.append(J(*bb, 1, 'T', dx, dy, 3, 'F', *area, full, 'K', 9, 'S', *area, 77))
     return out
+
+
+BIG_FIXED = [
+    # every colour distinct modulo 251 along the stream; windows deep inside display-sized areas
+    'tcrop 300 300 -1 219 302 3 G 90000 7 1',
+    'tcrop 320 240 5 210 50 20 G 76800 7 1',
+    'tcrop 257 256 255 254 5 5 G 65792 7 1',
+    'tcrop 320 240 300 205 40 40 G 70000 3 5',
+    'tcrop 400 330 0 164 1 1 G 132000 11 0',
+    'tstack 1 0 0 300 300 1 C -1 219 302 3 1 F 0 0 300 300 G 90000 7 1',
+    'tstack 1 0 0 320 240 1 C 5 210 50 20 1 F 0 0 320 240 G 76800 7 1',
+    'tstack 0 0 0 320 240 1 C 5 210 50 20 1 F 0 0 320 240 G 76800 7 1',
+    'tstack 1 0 0 257 256 1 C 255 254 5 5 1 F 0 0 257 256 G 65792 7 1',
+    'tstack 0 -7 9 320 240 2 C 100 215 9 9 T 3 -4 1 F -10 5 320 240 G 76800 11 2',
+    'tcalls 1 0 0 320 240 2 R 10 200 300 40 C 280 5 9 9 1 F -10 -200 320 240 G 76800 7 1',
+]
 
 
 def crop_cases(rng, tier):
@@ -210,10 +381,18 @@ def crop_cases(rng, tier):
         w, h = rng.randrange(0, 13), rng.randrange(0, 13)
         r = near(rng, (0, 0, max(w, 1), max(h, 1)), 4)
         out.append(J('tcrop', w, h, *r, stream(rng, w * h)))
+    # display-scale areas: small windows anywhere inside (and partly outside) a 200..400 wide area
+    for _ in range(40 if tier == 'quick' else 1500):
+        w, h = rng.choice([257, 300, 320, 400]), rng.choice([240, 256, 300, 330])
+        cw, ch = rng.choice([0, 1, 3, 9, 40]), rng.choice([0, 1, 2, 7])
+        r = (rng.randrange(-3, w + 2), rng.randrange(-3, h + 2), cw, ch)
+        n = w * h
+        out.append(J('tcrop', w, h, *r, 'G', rng.choice([n, n, n - rng.randrange(0, 40 * w), n + 9]), rng.choice([1, 3, 7, 11]), rng.randrange(251)))
     return out
 
 
 def cases(tier, rng):
+    yield from BIG_FIXED
     n = 3000 if tier == 'quick' else 60000
     for i in range(n):
         hst = history(rng)
@@ -226,21 +405,50 @@ def cases(tier, rng):
         hst = history(rng, maxdepth=0, maxops=3)
         yield 'tstack 0 ' + hst
         yield 'tstack 1 ' + hst
+    # parents at the edge of i32
+    for i in range(n // 8):
+        hst = edge_history(rng)
+        yield 'tstack %d %s' % (i % 2, hst)
+        if i % 3 == 0:
+            yield 'tcalls 1 ' + hst
+    # display-scale fill areas
+    for i in range(60 if tier == 'quick' else 1500):
+        hst = big_history(rng)
+        yield 'tstack %d %s' % (1 if i % 3 else 0, hst)
+        if i % 3 == 0:
+            yield 'tcalls 1 ' + hst
     for g in grid_cases(rng, 1200 if tier == 'quick' else None):
         yield 'tstack 0 ' + g
         yield 'tcalls 1 ' + g
     yield from crop_cases(rng, tier)
 
 
+def chain_case(rng):
+    """literal constructor chains on temporaries (c03.rs chain_apply): variant, two rectangles, an offset, ops"""
+    bb = (rng.randrange(-6, 9), rng.randrange(-6, 9), rng.randrange(1, 11), rng.randrange(1, 11))
+    r = near(rng, bb, good=0.8)
+    r2 = near(rng, (0, 0, max(1, r[2]), max(1, r[3])) if rng.random() < 0.5 else bb, good=0.8)
+    d = (rng.randrange(-4, 5), rng.randrange(-4, 5))
+    ref = rng.choice([bb, (0, 0, bb[2], bb[3]), (bb[0] - d[0], bb[1] - d[1], bb[2], bb[3])])
+    ops = gen_ops(rng, ref, 3)
+    return J(rng.randrange(2), *bb, rng.randrange(8), *r, *r2, *d, len(ops), *ops)
+
+
 def search(tier, rng):
     n = 5000 if tier == 'quick' else 200000
     for _ in range(n):
-        yield 'p_stack %d %s' % (rng.randrange(2), history(rng))
+        yield 'p_stack %d %s' % (rng.randrange(2), history(rng, good=0.85))
+    for _ in range(n // 8):
+        yield 'p_stack %d %s' % (rng.randrange(2), edge_history(rng))
+    for _ in range(60 if tier == 'quick' else 2000):
+        yield 'p_stack %d %s' % (rng.randrange(2), big_history(rng))
+    for _ in range(n // 5):
+        yield 'p_chain ' + chain_case(rng)
     for g in grid_cases(rng, 2500 if tier == 'quick' else None):
         yield 'p_stack %d %s' % (rng.randrange(2), g)
 
 
-LEVEL_TEXT = ('Proof: 23 Coq theorems over the Gallina model of the draw-target layer (coq/Model/Target.v: trait defaults unfolded '
+LEVEL_TEXT = ('Proof: 27 Coq theorems over the Gallina model of the draw-target layer (coq/Model/Target.v: trait defaults unfolded '
               'literally, the Cropped colour iterator as its next() state machine, the four adapters line by line). Proved for ALL '
               'inputs in range: default fill_contiguous/fill_solid/clear = row-major points paired with the stream (full, short, '
               'endless); the Cropped iterator yields exactly the colours at the row-major indices of crop /\\ area (initial skip, row '
@@ -251,6 +459,10 @@ LEVEL_TEXT = ('Proof: 23 Coq theorems over the Gallina model of the draw-target 
               'histories. Tie: extracted model and real adapters run on the same random histories (both parent kinds, call logs) '
               'on every run; direct search against an independent reference.')
 LEVEL_NOTE = ('Quantifier: the theorems cover stacks of any depth (the property asks for depth 3) and all operation histories. '
+              'No-escape is proved at pixel-map level (C03_clip_no_escape) AND at call level (C03_clip_call_area_inside: every pixel / '
+              'the whole area handed to the parent lies in clip /\\ parent box, no hypothesis). For a draw_iter-only parent the general '
+              'stack theorems carry a side condition on the lowered call (its area must not saturate Rectangle::points); '
+              'C03_stack_compose_small / _display_scale replace it by input-level magnitude bounds. '
               'Trusted: Coq kernel, extraction, the OCaml/Rust drivers, the hand-written model (validated by differential testing, '
               'not proved equal to the Rust code), core iterator adaptors modelled as list functions. Arithmetic is unbounded Z: the '
               'theorems need only the extent/far-edge ranges stated in `assumptions`; absence of i32 overflow in translate is C08.')
@@ -264,3 +476,13 @@ LEVEL_NOTE = ('Quantifier: the theorems cover stacks of any depth (the property 
 #                initial skip computed in u16 (caught by C08_targets tok only: needs display-scale areas)
 #   core/src/draw_target/mod.rs  default fill_solid with bounding_box() as area ; default clear with an origin-based
 #                rectangle ; default fill_contiguous clipping the area before zipping     (also caught by C01)
+
+# Round 2 (2026-09-28), after the second audit (notes/audit2/C03.md), re-run on scratch worktrees; all caught by ./check C03:
+#   contiguous.rs initial skip truncated to u16 (no panic, wrong colours at display scale): 36-43 correspondence lines and
+#                12-20 search lines per seed + corpus (before: 0 / 0); the overflow-checked `as u16 * as u16` form: PANIC
+#   seeded C03-A (crop origin not intersected): ~2200 correspondence / ~1650 search lines per seed, 5 corpus lines
+#   seeded C03-B (empty clip leaks its top-left pixel): 137-183 correspondence / 43-52 search lines per seed, 5 corpus
+#                lines (before: 4-12 / 0-5)
+#   draw_target/mod.rs DrawTargetExt::cropped pre-clipping the area to an origin box; Translated::clear filling its own
+#                (translated) bounding box on the parent; ColorConverted::clear as fill_solid(parent box) (same pixels,
+#                different call: reported by the call log as correspondence-broken)
